@@ -374,6 +374,9 @@ def gen(rnd, *, core=False, res_choices=(60, 60, 30, 15), subslot=True, alap=Non
                         deps.append({"to": x["path"]})     # the same predecessor ALSO finish-to-start: two different constraints on one pair
                 deps.append(d)
             t["deps"] = deps
+            if pins and not m["alap"] and t.get("milestone") and rnd.random() < 0.25:
+                # forward milestone with an END date and dependencies: the dependencies decide (an end is no pin in forward mode)
+                t["end"] = m["start"] + timedelta(days=rnd.randrange(0, 7), minutes=rnd.randrange(0, 24 * 60, res))
         elif pins and not m["alap"] and rnd.random() < 0.2:
             t["start"] = m["start"] + timedelta(days=rnd.randrange(0, 7), minutes=rnd.randrange(0, 24 * 60, res))
         tasks.append(t)
